@@ -1393,6 +1393,92 @@ def r09_9(ctx):
               'dash_path toggles state.on while the first-segment flag may still be set, and the flag reaches %s unchanged: the next dash is appended to the buffered first dash (the gap is bridged when the buffer is flushed as one polyline)' % ' and '.join('its test' if k == 'tested' else 'the end of the op' for k in bad))
 
 
+def r09_11(ctx):
+    """the pattern position the walk starts from is never an exhausted entry: the last value stored to the running
+    state's remaining length before the op loop is `remaining - x` under a dominating comparison that makes x
+    strictly smaller than `remaining` (or it is an entry of the dash array itself).  An offset that ends exactly on an
+    entry boundary otherwise leaves a zero-length rest: the first chopping iteration then toggles the state and clears
+    the first-segment flag before anything was buffered, and on a closed subpath the piece reaching the end is not
+    joined to the piece starting at the beginning"""
+    R = 'R09.11'
+    b = ctx.body(DASH, R)
+    an = ctx.an(b)
+    cfg = an.cfg
+    key = 'dash::dash_path'
+    m = op_match(ctx, b, R)
+    if m is None:
+        return
+    state, op_header, op_blocks = _dash_state_local(ctx, b, m)
+    if not ctx.check(state is not None and op_header is not None, R, key + '|anchors', b.loc(), 'running dash state and op loop found', 'cannot find the running dash state or the op loop (fail closed)'):
+        return
+    loops = cfg.loops()
+    in_pre_loop = set()
+    for h, bl in loops.items():
+        if h not in op_blocks:
+            in_pre_loop |= set(bl)
+    # stores to state.remaining_length ahead of the op loop that are not inside a loop of their own: the last word on
+    # the initial value
+    finals = []
+    for d in an.defs_of[state]:
+        if d.kind != 'assign' or d.bb in op_blocks or d.bb not in cfg.reach:
+            continue
+        st = b.blocks[d.bb]['st'][d.idx]
+        pr = st['p']['pr']
+        if d.partial and pr and pr[-1].get('n') == 'remaining_length' and d.bb not in in_pre_loop and cfg.dominates(d.bb, op_header):
+            finals.append((d, st))
+    if not ctx.check(len(finals) >= 1, R, key + '|initial rest', b.loc(), 'store of the initial remaining length found',
+                     'cannot find the statement that leaves the rest of the starting entry in the dash state ahead of the op loop (fail closed)'):
+        return
+    finals.sort(key=lambda x: (cfg.rpo_index(x[0].bb) if hasattr(cfg, 'rpo_index') else x[0].bb, x[0].idx))
+    d, st = finals[-1]
+    rv = st['rv']
+    loc = b.loc(st.get('sp'))
+    if rv.get('k') != 'binop' or rv.get('op') != 'Sub':
+        ctx.fail(R, key + '|initial rest', loc, 'the initial remaining length is not `remaining - consumed`: cannot decide whether it can be zero (fail closed)')
+        return
+    rem = strip_all(an.term_at(d.bb, d.idx, rv['a']))
+    x = strip_all(an.term_at(d.bb, d.idx, rv['b']))
+    is_rem = rem[0] == 'field' and 'remaining_length' in repr(rem[1:3])
+    strict = False
+    weak = None
+    for op, a, b2, si in normalized_guards(ctx, b, d.bb):
+        if b2 is None:
+            continue
+        a, b2 = strip_all(a), strip_all(b2)
+        if (a, b2) == (x, rem) and op in ('Lt', '!Ge'):
+            strict = True
+        elif (a, b2) == (x, rem) and op in ('Le', '!Gt'):
+            weak = (op, si)
+    if strict and is_rem:
+        ctx.ok(R, key + '|initial rest positive', loc, 'the consumed part is strictly smaller than the entry it is taken from (%s < %s where the rest is stored)' % (fmt(b, x)[:40], fmt(b, rem)[:40]))
+    elif weak:
+        ctx.fail(R, key + '|initial rest positive', loc, 'the offset is consumed while it is *greater* than the current entry, so an offset that ends exactly on an entry boundary leaves remaining_length = 0 on the exhausted entry (only %s(%s, %s) holds here): the first segment then toggles the state and clears the first-segment flag before anything is buffered — with the offset on an off->on boundary a closed subpath whose end is on loses the join at its start point (e.g. square 40x40, dashes [10,10,20,13], offset 20)'
+                 % (weak[0], fmt(b, x)[:40], fmt(b, rem)[:40]))
+    else:
+        ctx.fail(R, key + '|initial rest positive', loc, 'no dominating comparison makes the consumed offset strictly smaller than the entry it is subtracted from (%s - %s): cannot show that the walk does not start on an exhausted entry (fail closed)' % (fmt(b, rem)[:40], fmt(b, x)[:40]))
+
+
+def r09_12(ctx):
+    """what dash_path returns is what it built: every returned value is `finish()` of the one PathBuilder the arms emit
+    into.  Returning the input path (a "solid pattern" shortcut) or any other path bypasses the pattern walk: whether
+    that is right depends on the whole dash array (an odd-length array is repeated twice, so its even entries are gaps as
+    well), which the rules do not decide"""
+    R = 'R09.12'
+    b = ctx.body(DASH, R)
+    an = ctx.an(b)
+    key = 'dash::dash_path'
+    rts = [strip_all(t) for t in shared.ret_terms(ctx, b)]
+    ctx.floor(R, 'returned values of dash_path', len(rts), 1)
+    bad = [t for t in rts if not (is_call(t, 'PathBuilder::finish') and len(t[2]) == 1)]
+    builders = set(repr(strip_all(t[2][0])) for t in rts if is_call(t, 'PathBuilder::finish') and len(t[2]) == 1)
+    if bad:
+        ctx.fail(R, key + '|returns the built path', b.loc(), 'dash_path can return %s instead of the path it builds: on that route the dash pattern is not applied (e.g. a one-entry array [d] has gaps of length d as well, the array being repeated twice)' % fmt(b, bad[0])[:100])
+    elif len(builders) > 1:
+        ctx.fail(R, key + '|returns the built path', b.loc(), 'dash_path returns the result of %d different builders: cannot decide which one the arms emit into (fail closed)' % len(builders))
+    else:
+        ctx.ok(R, key + '|returns the built path', b.loc(), 'all %d returned values are finish() of the builder' % len(rts))
+
+
 def r09_10(ctx):
     """the chopping loops consume the segment: the length still to be chopped is only ever reduced by the dash length
     just consumed (len -= state.remaining_length), never re-derived from positions — with a non-negative pattern of
